@@ -136,9 +136,10 @@ class Excel:
     @classmethod
     def _get_suspicious_constructions(cls, value):
         value = str(value)
-        suspicious_constructions = re.findall(r'[a-zA-Z_\d]+\(.*?\)', value)
+        # DOTALL: the argument list of a call may run over a line break
+        suspicious_constructions = re.findall(r'[a-zA-Z_\d]+\(.*?\)', value, re.DOTALL)
         if suspicious_constructions:
-            return [i for i in suspicious_constructions if not re.findall(r'[A-Z]+\(.*?\)', i)]
+            return [i for i in suspicious_constructions if not re.findall(r'[A-Z]+\(.*?\)', i, re.DOTALL)]
 
         return []
 
